@@ -317,6 +317,32 @@ func init() {
 		st.cur = i
 		return nil, ctlEnd
 	})
+	regRepo("vhRunNamed", func(ex *Exec, st *State, fr *Frame, args []Value) (Value, ctlT) {
+		// run the k-th (0-based) not yet finished coroutine whose function name contains the given substring
+		sub := strArg(args[0])
+		k := ex.intArg(st, args[1], "vhRunNamed index")
+		for i := 1; i < len(st.coros); i++ {
+			c := st.coros[i]
+			if c.status == CoDone || !strings.Contains(c.name, sub) {
+				continue
+			}
+			if k > 0 {
+				k--
+				continue
+			}
+			if retReg := fr.info.idx[fr.curCall]; retReg >= 0 {
+				fr.regs[retReg] = tTrue
+			}
+			fr.ip++
+			st.runStack = append(append([]int(nil), st.runStack...), st.cur)
+			if c.status == CoBlocked {
+				c.status = CoRunnable
+			}
+			st.cur = i
+			return nil, ctlEnd
+		}
+		return tFalse, ctlRet
+	})
 	regRepo("vhRunAll", func(ex *Exec, st *State, fr *Frame, args []Value) (Value, ctlT) {
 		// run every non-finished coroutine (in id order) until it blocks or finishes; repeat until no progress.
 		// implemented as: yield once to each runnable one; harnesses call it in a loop bounded by vhQuiescent().
